@@ -196,6 +196,56 @@ Theorem c02_raw_pointer_copy : forall fresh s i j l c,
 Proof. exact raw_copy_step. Qed.
 Print Assumptions c02_raw_pointer_copy.
 
+(* ======== wave 6: every way C++ copies, assigns or moves a whole buffer ========
+   A DmxBuffer is a value, so an expression that assigns from a temporary or a by-value return, swaps two
+   buffers, or shuffles buffers inside a container MEANS the corresponding copy constructions, copy
+   assignments and destructions (Spec.assign_temp_ops / swap_ops / erase_ops; for the class as it is --
+   no move members -- that is also literally what the compiler emits).  The harness executes the C++
+   expressions themselves (x = DmxBuffer(y), x = Snapshot(y), std::swap, std::vector push_back / insert /
+   erase / resize / reserve / std::reverse), the model these sequences; should move members be added,
+   the same observations are demanded of them.  t is the slot of the expression's temporary. *)
+
+(* x = T(y) / x = f(y) from ANY aliasing state (x, y sharing or not, x == y included): x gets y's value,
+   everything else -- y, every other buffer, the temporary's slot -- is as before. *)
+Theorem c02_assign_from_temporary : forall fresh s t i j,
+  inv s -> is_raw s t = true -> is_live s i = true -> is_live s j = true -> t <> i -> t <> j ->
+  exists s', crun fresh s (assign_temp_ops t i j) = Ok s' /\ inv s' /\
+             abs s' = upd (abs s) i (Some (aget (abs s) j)).
+Proof. exact assign_temp_full. Qed.
+Print Assumptions c02_assign_from_temporary.
+
+(* ... and an in-place write into x afterwards does not reach y (nor anybody else): the case that a move
+   assignment which forgets the copy-on-write flag gets wrong. *)
+Theorem c02_assign_from_temporary_then_write : forall fresh s t i j ch v,
+  inv s -> is_raw s t = true -> is_live s i = true -> is_live s j = true -> t <> i -> t <> j -> i <> j ->
+  exists s', crun fresh s (assign_temp_ops t i j ++ [OSetChannel i ch v]) = Ok s' /\ inv s' /\
+             nth_error (abs s') j = nth_error (abs s) j /\
+             (forall q, (forall x, In x (query_slots q) -> x <> i /\ x <> t) -> cquery s' q = cquery s q).
+Proof. exact assign_temp_then_write_full. Qed.
+Print Assumptions c02_assign_from_temporary_then_write.
+
+(* std::swap(a, b) from any aliasing state (a == b included): the two values are exchanged, nothing else
+   changes. *)
+Theorem c02_swap : forall fresh s t a b,
+  inv s -> is_raw s t = true -> is_live s a = true -> is_live s b = true -> t <> a -> t <> b ->
+  exists s', crun fresh s (swap_ops t a b) = Ok s' /\ inv s' /\
+             abs s' = upd (upd (abs s) a (Some (aget (abs s) b))) b (Some (aget (abs s) a)).
+Proof. exact swap_full. Qed.
+Print Assumptions c02_swap.
+
+(* container.erase(k) over n live elements at slots base..base+n-1, whatever they share with each other
+   or with buffers outside: the elements behind k move one position down with their values, the last
+   slot becomes raw storage, every other slot keeps its value. *)
+Theorem c02_container_erase : forall fresh s base k n,
+  inv s -> (k < n)%nat -> (forall m, (m < n)%nat -> is_live s (base + m) = true) ->
+  exists s', crun fresh s (erase_ops base k n) = Ok s' /\ inv s' /\
+    (forall x, nth_error (abs s') x =
+       if Nat.eqb x (base + n - 1) then Some None
+       else if (Nat.leb (base + k) x && Nat.ltb x (base + n - 1))%bool then nth_error (abs s) (x + 1)
+       else nth_error (abs s) x).
+Proof. exact erase_full. Qed.
+Print Assumptions c02_container_erase.
+
 (* ---- the hypotheses are satisfiable, the model computes *)
 Example c02_ex_inv : inv (init_st 4).
 Proof. exact (inv_init 4). Qed.
@@ -240,3 +290,14 @@ Example c02_ex_raw :
      abs s = [Some (Some [1; 2; 3; 9]); Some (Some [1; 2; 3; 9]); Some (Some [1; 2; 3; 9])] /\
      live_blocks s = 2%nat.
 Proof. eexists. split; [vm_compute; reflexivity|]. split; vm_compute; reflexivity. Qed.
+
+(* the demo of seeded change C02f-2 in the model: master shared with an alias, work = T(master), write
+   into work, swap the alias with a private buffer and write into that, erase from a "vector" (slots 4..6) *)
+Example c02_ex_expressions :
+  exists s, crun [] (init_st 8)
+      ([ONewStr 0 [1; 2; 3; 4]; OCopyNew 1 0; ONewStr 2 [9; 9]] ++ assign_temp_ops 7 2 0 ++ [OSetChannel 2 0 77]
+       ++ swap_ops 7 1 2 ++ [OSetChannel 2 3 200]
+       ++ [OCopyNew 4 2; OCopyNew 5 0; OCopyNew 6 0] ++ erase_ops 4 0 3 ++ [OSetChannel 4 0 5]) = Ok s /\
+    abs s = [Some (Some [1; 2; 3; 4]); Some (Some [77; 2; 3; 4]); Some (Some [1; 2; 3; 200]); None;
+             Some (Some [5; 2; 3; 4]); Some (Some [1; 2; 3; 4]); None; None].
+Proof. eexists. split; vm_compute; reflexivity. Qed.
